@@ -9,6 +9,12 @@ use serde_json::json;
 use std::collections::HashMap;
 use std::str::FromStr;
 
+struct MetablockBuilderShim;
+impl MetablockBuilderShim {
+    fn resign(mb: &Metablock, k: &PrivateKey) -> in_toto::crypto::Signature {
+        Metablock::new(mb.metadata.clone(), &[k]).unwrap().signatures[0].clone()
+    }
+}
 fn simple(owner_signers: &[&PrivateKey], expiry_days: i64) -> (Metablock, tempfile::TempDir) {
     let ka = key(2);
     let d = tmpdir();
@@ -42,6 +48,21 @@ pub fn run_c01(r: &mut Report) {
         let ok = matches!(&res, Ok(v) if v.is_ok() == expect);
         r.case(id, json!({"signers": signers.len(), "caller_keys": n}), if expect { "Ok" } else { "Err" },
                match &res { Ok(v) => verdict(v), Err(p) => format!("panic: {}", p) }, ok);
+    }
+    // an owner signing twice with a randomized scheme does not stand in for a second owner
+    {
+        let ec = PrivateKey::from_pkcs8(&std::fs::read("/repo/tests/ecdsa/ec.pk8.der").unwrap(), in_toto::crypto::SignatureScheme::EcdsaP256Sha256).unwrap();
+        let (mut lay, d) = simple(&[&ec], 30);
+        let (again, _d2) = simple(&[&ec], 30);
+        if let (MetadataWrapper::Layout(a), MetadataWrapper::Layout(b)) = (&lay.metadata, &again.metadata) {
+            if a == b { lay.signatures.push(again.signatures[0].clone()); }
+        }
+        // re-sign the very same content a second time (expiry may differ by construction time, so sign explicitly)
+        let second = MetablockBuilderShim::resign(&lay, &ec);
+        lay.signatures.push(second);
+        let res = no_panic(|| in_toto_verify(&lay, owner_keys(&[&ec, &o2]), d.path().to_str().unwrap(), None));
+        r.case("one-owner-signs-twice-randomized", json!({"owners_trusted": 2, "signatures": "2 by the same ECDSA key"}), "Err",
+               match &res { Ok(v) => verdict(v), Err(p) => format!("panic: {}", p) }, matches!(&res, Ok(v) if v.is_err()));
     }
     // post-signing change of the layout content
     let (mut lay, d) = simple(&[&o1], 30);
@@ -111,6 +132,14 @@ pub fn run_c04(r: &mut Report) {
         C { id: "t1-mislabeled", mb: mislabeled, keys: pubs(&[&k1, &k2]), t: 1, expect: false },
         C { id: "t1-duplicate-authorised-key", mb: sign(&[&k1]), keys: pubs(&[&k1, &k1]), t: 1, expect: true },
         C { id: "t2-duplicate-authorised-key", mb: sign(&[&k1]), keys: pubs(&[&k1, &k1]), t: 2, expect: false },
+        C { id: "t2-two-different-signatures-by-one-ecdsa-key", mb: {
+                let ec = in_toto::crypto::PrivateKey::from_pkcs8(&std::fs::read("/repo/tests/ecdsa/ec.pk8.der").unwrap(), in_toto::crypto::SignatureScheme::EcdsaP256Sha256).unwrap();
+                let mut m = signed_link(&l, &[&ec]);
+                let again = signed_link(&l, &[&ec]);
+                m.signatures.push(again.signatures[0].clone());   // randomized scheme: same key id, different bytes, both valid
+                m },
+            keys: { let ec = in_toto::crypto::PrivateKey::from_pkcs8(&std::fs::read("/repo/tests/ecdsa/ec.pk8.der").unwrap(), in_toto::crypto::SignatureScheme::EcdsaP256Sha256).unwrap(); vec![ec.public().clone(), k2.public().clone()] },
+            t: 2, expect: false },
         C { id: "tmax", mb: sign(&[&k1]), keys: pubs(&[&k1]), t: u32::MAX, expect: false },
         C { id: "no-signatures", mb: sign(&[]), keys: pubs(&[&k1]), t: 1, expect: false },
         C { id: "no-keys", mb: sign(&[&k1]), keys: vec![], t: 1, expect: false },
